@@ -498,8 +498,13 @@ fn check_pair(case: &PairCase) -> Verdict {
 // Through the runtime: MapBackpressure relieves backpressure per ReconKey
 
 fn check_backpressure(case: &PairCase) -> Verdict {
-    let mut v = Verdict::new();
     let (ta, tb) = case.texts();
+    check_backpressure_texts(&TextPair(ta, tb))
+}
+
+fn check_backpressure_texts(case: &TextPair) -> Verdict {
+    let mut v = Verdict::new();
+    let (ta, tb) = (case.0.clone(), case.1.clone());
     let f = facts(&ta, &tb);
     v.class_if(f.expected_equal, "expected-one-key");
     v.class_if(f.expected_equal && ta != tb, "equal-but-different-text");
@@ -543,7 +548,9 @@ fn check_backpressure(case: &PairCase) -> Verdict {
     } else {
         vec![(ta.clone(), "1".into()), (marker.into(), "2".into()), (tb.clone(), "3".into())]
     };
-    if out != expected {
+    // (which of the two spellings the merged entry keeps is not part of the property)
+    let matches_expected = out == expected || (f.expected_equal && out == vec![(tb.clone(), "3".to_string()), (marker.to_string(), "2".to_string())]);
+    if !matches_expected {
         let both_valid = f.pa.is_some() && f.pb.is_some();
         let what = if f.expected_equal { "split-equal-keys" } else { "merged-distinct-keys" };
         let cell = if !both_valid {
@@ -759,7 +766,20 @@ fn main() {
             |c| guard(check_text_pair, c),
         );
     }
-    ctx.prop("pairs", ctx.pick(100_000, 10_000_000), arb_pair, |c| guard(check_pair, c));
-    ctx.prop("backpressure-keys", ctx.pick(40_000, 2_000_000), arb_pair, |c| guard(check_backpressure, c));
+    {
+        let skel = &skel;
+        let n = skel.len();
+        ctx.enumerate(
+            "backpressure-skeletons",
+            |w, ws| {
+                (0..n)
+                    .filter(move |i| i % ws == w)
+                    .flat_map(move |i| (i..n).map(move |j| TextPair(skel[i].clone(), skel[j].clone())))
+            },
+            |c| guard(check_backpressure_texts, c),
+        );
+    }
+    ctx.prop("pairs", ctx.pick(500_000, 20_000_000), arb_pair, |c| guard(check_pair, c));
+    ctx.prop("backpressure-keys", ctx.pick(150_000, 4_000_000), arb_pair, |c| guard(check_backpressure, c));
     ctx.finish();
 }
